@@ -35,6 +35,12 @@ def sdn():
     if not _state["installed"]:
         import spydrnet.uniquify, spydrnet.flatten, spydrnet.clone  # noqa: F401
         import spydrnet.compare.compare_netlists  # noqa: F401
+        # readers/composers import their sub-modules lazily: load them now so that the snapshot of
+        # module-level globals does not mistake a first import for residue
+        import spydrnet.parsers.edif.parser, spydrnet.parsers.verilog.parser  # noqa: F401
+        import spydrnet.parsers.eblif.eblif_parser, spydrnet.parsers.primitive_library_reader  # noqa: F401
+        import spydrnet.composers.edif.composer, spydrnet.composers.verilog.composer  # noqa: F401
+        import spydrnet.composers.eblif.eblif_composer  # noqa: F401
         assert spydrnet.get_active_plugins() == {}, "a .spydrnet plugin config is being picked up"
         install_seam()
     return spydrnet
